@@ -612,6 +612,7 @@ func runC20(c *Ctx) {
 		}
 	}
 	c.requireInstances("descriptor-tags", 40)
+	checkReusedDecodeTargets(c, "descriptor-tags.reused-targets")
 	// generated-path detection recognises exactly the reserved locations (shared with C04)
 	checkGeneratedRegexp(c)
 	checkErrBranchFails(c, "errors-surface.error-branch-fails", errBranchExceptions, "pkg/model")
